@@ -71,8 +71,8 @@ def regions_of(rec_path):
     regs = {}
     for line in open(rec_path):
         r = json.loads(line)
-        if "mark" in r:
-            continue
+        if "mark" in r or "f" not in r:
+            continue      # marks and the header of a single-operator recording
         regs.setdefault(r["reg"], []).append(r)
     out, seen = [], set()
     for rid in sorted(regs):
@@ -150,15 +150,18 @@ def check_regions(rep, regions, label, invariant="RaceFree"):
 # Observed tables of single operators vs the INTENDED tables of spec/ZebraSchedule.tla
 
 def intended_tables(rep, shapes):
-    """TLC checks EpochDisjoint for the given shapes and prints the intended tables"""
-    nrs = sorted({s[0] for s in shapes})
-    nts = sorted({s[1] for s in shapes})
+    """TLC checks EpochDisjoint for exactly the given shapes (nr, nt, nc, dir) and prints the intended tables"""
     cfg = os.path.join(vlib.BUILD, "cfg", "zebra_emit.cfg")
     os.makedirs(os.path.dirname(cfg), exist_ok=True)
-    open(cfg, "w").write('SPECIFICATION Spec\nCONSTANTS\n  NrSet = {%s}\n  NtSet = {%s}\n  Ops = {"residualGive", "smootherTake", "xsmootherTake", "residualTake"}\n  EmitTables = TRUE\n'
-                         'INVARIANTS EpochDisjoint AllRadialOnce AllCirclesOnce Emit\n' % (",".join(map(str, nrs)), ",".join(map(str, nts))))
-    r = vlib.tlc("ZebraSchedule", cfg, heap="8g", tag="zebraemit", timeout=1500)
-    rep.add_tlc(r, "ZebraSchedule.tla intended tables for %d x %d sizes" % (len(nrs), len(nts)))
+    sfile = os.path.join(vlib.BUILD, "cases", "zebra_shapes.ndjson")
+    os.makedirs(os.path.dirname(sfile), exist_ok=True)
+    with open(sfile, "w") as f:
+        for (nr, nt, nc, d) in shapes:
+            f.write(json.dumps({"nr": nr, "nt": nt, "nc": nc, "dir": d}) + "\n")
+    open(cfg, "w").write('SPECIFICATION Spec\nCONSTANTS\n  NrSet = {}\n  NtSet = {}\n  Ops = {%s}\n  EmitTables = TRUE\n  FIXED = {"F19"}\n'
+                         'INVARIANTS EpochDisjoint AllRadialOnce AllCirclesOnce Emit\n' % ", ".join('"%s"' % o for o in ZEBRA_OPS))
+    r = vlib.tlc("ZebraSchedule", cfg, heap="8g", tag="zebraemit", timeout=1500, env={"ZSHAPES": sfile}, workers=8)
+    rep.add_tlc(r, "ZebraSchedule.tla intended tables for %d shapes x %d operators" % (len(shapes), len(ZEBRA_OPS)))
     if r.rc != 0:
         if r.rc == 12:
             return None, "ZebraSchedule.tla: %s violated\n%s" % (r.violation, vlib.counterexample(r)[:1500])
@@ -170,12 +173,24 @@ def intended_tables(rep, shapes):
     return tabs, None
 
 
-def observe_ops(nr, nt, nc, dirbc, threads):
+ZEBRA_OPS = ("residualGive", "smootherTake", "xsmootherTake", "residualTake", "smootherGive")
+
+
+def record_ops(nr, nt, nc, dirbc, threads):
+    """run the five operators alone on a harness-owned level of the given shape; returns the recording"""
     exe = os.path.join(vlib.build(["drv_omp"], "gcc"), "drv_omp")
     rec = os.path.join(vlib.BUILD, "cases", "ops_%d_%d_%d_%d.rec" % (nr, nt, nc, dirbc))
     rc, recs, out = vlib.run_driver(exe, ["ops", nr, nt, nc, dirbc, threads, rec], timeout=600, env={"OMP_NUM_THREADS": str(threads), "OMP_DYNAMIC": "false"})
     if rc != 0:
         return None, "ops recorder failed (rc=%s): %s" % (rc, out[-400:])
+    return rec, None
+
+
+def observe_ops(nr, nt, nc, dirbc, threads, rec=None):
+    if rec is None:
+        rec, err = record_ops(nr, nt, nc, dirbc, threads)
+        if err:
+            return None, err
     lines = [json.loads(l) for l in open(rec)]
     hdr = lines[0]
     N = hdr["n"]
@@ -197,7 +212,7 @@ def observe_ops(nr, nt, nc, dirbc, threads):
     for op, its in ops.items():
         loops = {}
         own = {"residualGive": "ResidualGive/residualGive.cpp", "smootherTake": "SmootherTake/smootherSolver.cpp",
-               "xsmootherTake": "ExtrapolatedSmootherTake/smootherSolver.cpp", "residualTake": "ResidualTake/residualTake.cpp"}.get(op, "@")
+               "xsmootherTake": "ExtrapolatedSmootherTake/smootherSolver.cpp", "residualTake": "ResidualTake/residualTake.cpp", "smootherGive": "SmootherGive/smootherSolver.cpp"}.get(op, "@")
         for it in its:
             if own not in it["f"]:
                 continue      # helper regions (vector copies) are separate parallel regions
@@ -243,4 +258,3 @@ def written_arrays_all(loops):
     return {a for l in loops for t in l["tasks"] for (a, n) in map(tuple, t["w"])}
 
 
-ZEBRA_OPS = ("residualGive", "smootherTake", "xsmootherTake", "residualTake")
